@@ -301,6 +301,42 @@ func init() {
 					}
 				}
 			}
+			// the field-selective decoder of Props/C08Decoders: objects with repeated, escaped and similar names, numbers and
+			// other values under the selected name, damaged documents
+			names := []string{"k", "a", "kk", `k\u0020`, "k ", "", "K", `\"k`, "é"}
+			for i := 0; i < c.scale(1500, 15000); i++ {
+				var b strings.Builder
+				b.WriteString([]string{"{", " {", "{ ", "\n{\t"}[c.Rng.Intn(4)])
+				n := c.Rng.Intn(6)
+				for k := 0; k < n; k++ {
+					if k > 0 {
+						b.WriteString([]string{",", " ,", ", "}[c.Rng.Intn(3)])
+					}
+					b.WriteString(`"` + names[c.Rng.Intn(len(names))] + `"` + []string{":", " :", ": "}[c.Rng.Intn(3)])
+					switch c.Rng.Intn(8) {
+					case 0:
+						b.WriteString([]string{`"1"`, "null", "true", "[1,{}]", `{"k":2}`, "1e999", "-", "01"}[c.Rng.Intn(8)])
+					case 1:
+						b.Write(g.Doc(2, 4))
+					default:
+						l := lits[c.Rng.Intn(len(lits))]
+						if len(l) > 400 {
+							l = l[:40]
+						}
+						b.WriteString(strings.TrimLeft(l, " \t\r\n"))
+					}
+				}
+				b.WriteString([]string{"}", " }", "} x", "", "}}", ",}"}[c.Rng.Intn(6)])
+				d := []byte(b.String())
+				st := []string{"-", "1,2,3", "7"}[c.Rng.Intn(3)]
+				key := names[c.Rng.Intn(3)]
+				cases = append(cases, apiCase("fieldfloat", "FieldFloat", hx(d), hx([]byte(key)), st))
+				if c.Rng.Intn(4) == 0 {
+					for _, m := range g.Mutate(d, 1) {
+						cases = append(cases, apiCase("fieldfloat:mutated", "FieldFloat", hx(m), hx([]byte(key)), st))
+					}
+				}
+			}
 			for _, sdoc := range []string{"null", " null", "[]", "[ ]", "[1]", "[-0]", "[1,2", "[1 2]", "[1,]", "[,1]", "x", "", "[9007199254740993]", "[1e400]", "[0.1,0.2,0.3]"} {
 				cases = append(cases, apiCase("floatarray", "FloatArray", hx([]byte(sdoc)), "-"))
 			}
@@ -308,7 +344,7 @@ func init() {
 				return "", err
 			}
 		}
-		return "decoders written against the public API only (manual token walks with NextToken and the typed readers incl. the integer readers, readers given leading whitespace, NextTokenType, SkipValue, SkipValueFast, ReadValue, nested HandleArrayValues/HandleObjectValues with and without a shared Buffer, declining handlers), 2 all-reading + 4 random strategy mixes per document, on generated, followed, mutated and string-corner-case documents; final offset and reconstructed tree compared with direct ReadValue; the all-reading validating decoder, must fail wherever direct decoding fails; every strategy mix that did not use SkipValueFast must fail on syntactically invalid input; the number-array decoder of Props/C08Decoders (HandleArrayValues + ReadFloat64 handler) against its model on generated arrays of float literals", nil
+		return "decoders written against the public API only (manual token walks with NextToken and the typed readers incl. the integer readers, readers given leading whitespace, NextTokenType, SkipValue, SkipValueFast, ReadValue, nested HandleArrayValues/HandleObjectValues with and without a shared Buffer, declining handlers), 2 all-reading + 4 random strategy mixes per document, on generated, followed, mutated and string-corner-case documents; final offset and reconstructed tree compared with direct ReadValue; the all-reading validating decoder, must fail wherever direct decoding fails; every strategy mix that did not use SkipValueFast must fail on syntactically invalid input; the number-array decoder of Props/C08Decoders (HandleArrayValues + ReadFloat64 handler) and the field-selective decoder (HandleObjectValues + ReadFloat64 on one name, declining the rest) against their models on generated arrays / objects of float literals", nil
 	}
 }
 
